@@ -230,3 +230,31 @@ def extract(repo):
                             for m, fn in shape))
     lines += ["]", "", "end Nix.Generated.FrameShape", ""]
     return {TARGET: "\n".join(lines)}
+
+
+def sync_modelled(repo="/repo", verif=None):
+    """after a reviewed, harmless edit of a modelled method (e.g. a `fix:` commit that adds a roll-back): copy the
+    regenerated `guards` / `calls` tables into the hand-written NixModel/Pure/FrameShape.lean (header kept).
+    Usage: /venv/bin/python -m harness.extract.frameshape sync"""
+    verif = verif or os.path.dirname(os.path.dirname(os.path.dirname(os.path.abspath(__file__))))
+    t = extract(repo)[TARGET]
+    g = t[t.index("def guards"):t.index("/-- (method, [callee])")]
+    c = t[t.index("def calls"):t.index("end Nix.Generated")]
+    p = os.path.join(verif, "lean", "NixModel", "Pure", "FrameShape.lean")
+    with open(p, encoding="utf-8") as f:
+        s = f.read()
+    i, j = s.index("def guards"), s.index("/-- attribute-chain calls")
+    s = s[:i] + g + s[j:]
+    i, j = s.index("def calls"), s.index("end Nix.Frame.Shape")
+    s = s[:i] + c + s[j:]
+    with open(p, "w", encoding="utf-8") as f:
+        f.write(s)
+    return p
+
+
+if __name__ == "__main__":
+    import sys
+    if sys.argv[1:2] == ["sync"]:
+        print("rewrote", sync_modelled(os.environ.get("NIXPY_REPO", "/repo")))
+    else:
+        print(extract(os.environ.get("NIXPY_REPO", "/repo"))[TARGET])
